@@ -14,15 +14,14 @@ import os
 import sys
 
 sys.path.insert(0, os.path.dirname(os.path.abspath(__file__)))
-from universe import lib_wac, tla_str  # noqa: E402
+from universe import lib_wac, tla_kind, tla_str  # noqa: E402
 
 ROOT = os.path.dirname(os.path.dirname(os.path.abspath(__file__)))
 
 FUNC_TEXT = {"fA": "func(a: u32) -> u32", "fB": "func(b: u32, c: u32)"}
 IFACE_TEXT = {"Ii": "interface { x: func(a: u32) -> u32; }", "Ik": "interface { y: func(b: u32, c: u32); }"}
-PKG_NAME = {"wp": "test:prov", "wc": "test:cons", "wa": "test:amb", "wm": "test:mid", "wt": "test:tgt", "nope": "test:nope",
-            "self": "test:comp"}
-WIT_PACKAGES = {"ns:p": "package ns:p;\n\ninterface i {\n  x: func(a: u32) -> u32;\n}\n"}
+PKG_NAME = {"wp": "test:prov", "wc": "test:cons", "wa": "test:amb", "wm": "test:mid", "wt": "test:tgt", "wv": "test:vcons",
+            "nope": "test:nope", "self": "test:comp"}
 
 
 def ident(x):
@@ -118,8 +117,68 @@ def pool():
         ("export", nacc(c, "ns:p/out"), None),
         ("export", f, "spread"),                                    # spread of a non-instance
         ("export", acc(new(P), "f"), None),
+        # ---- added for C11 (appended: earlier indices are quoted in seeds and evidence)
+        ("let", "c", new(C, named("ns:p/k@1.0.0", acc(p, "k"), True), FILL)),   # leaves f and ns:p/i implicit
+        ("let", "v", new("wv", FILL)),
+        ("export", acc(ident("v"), "run"), None),
+        ("import", "z", None, ("func", "fA")),
+        ("export", acc(p, "f"), None),
+        ("export", acc(p, "g"), None),
     ]
     return s
+
+
+def targets_focus(stmts):
+    """the statements C11 composes from: imports (right, wrong type, outside the world), instantiations
+    leaving different implicit imports, exports by access / rename / spread"""
+    P, C = "wp", "wc"
+    p, c = ident("p"), ident("c")
+    want = [
+        ("import", "f", None, ("func", "fA")),
+        ("import", "f", None, ("func", "fB")),
+        ("import", "i", None, ("path", "ns:p/i", "Ii")),
+        ("import", "z", None, ("func", "fA")),
+        ("let", "p", new(P)),
+        ("let", "c", new(C, FILL)),
+        ("let", "c", new(C, inf("i"), FILL)),
+        ("let", "c", new(C, spread("p"))),
+        ("let", "c", new(C, named("ns:p/k@1.0.0", acc(p, "k"), True), FILL)),
+        ("let", "v", new("wv", FILL)),
+        ("export", acc(c, "run"), None),
+        ("export", acc(c, "run"), ("as", "r2")),
+        ("export", p, "spread"),
+        ("export", c, "spread"),
+        ("export", acc(ident("v"), "run"), None),
+        ("export", acc(p, "f"), None),
+        ("export", acc(p, "g"), None),
+    ]
+    return [stmts.index(w) + 1 for w in want]
+
+
+# ------------------------------------------------------------------ target worlds (C11)
+WIT_ITEM = {"fA": "func(a: u32) -> u32", "fB": "func(b: u32, c: u32)"}
+# world: package, version, imports / exports as (name in the world's component type, kind, WIT item text)
+WORLDS = {
+    "w1": ("ns:p", None, [("ns:p/i", "Ii", "import i;")], [("run", "fA", "export run: func(a: u32) -> u32;")]),
+    "w2": ("ns:p", None, [("ns:p/i", "Ii", "import i;"), ("f", "fA", "import f: func(a: u32) -> u32;")],
+           [("run", "fA", "export run: func(a: u32) -> u32;"), ("ns:p/out", "Ii", "export out;")]),
+    "w3": ("ns:p", None, [], [("f", "fA", "export f: func(a: u32) -> u32;"), ("g", "fB", "export g: func(b: u32, c: u32);")]),
+    "w3b": ("ns:p", None, [], [("f", "fB", "export f: func(b: u32, c: u32);")]),
+    "w4": ("ns:p", None, [("f", "fB", "import f: func(b: u32, c: u32);")], [("run", "fA", "export run: func(a: u32) -> u32;")]),
+    "wv": ("ns:v", (1, 2, 0), [("ns:v/i@1.2.0", "Ii", "import i;")], [("run", "fA", "export run: func(a: u32) -> u32;")]),
+}
+
+
+def wit_packages():
+    out = {}
+    for pkg, ver in sorted({(w[0], w[1]) for w in WORLDS.values()}, key=str):
+        head = f"package {pkg}" + ("@%d.%d.%d" % ver if ver else "") + ";\n\n"
+        body = "interface i {\n  x: func(a: u32) -> u32;\n}\n\ninterface out {\n  x: func(a: u32) -> u32;\n}\n"
+        for wid, w in WORLDS.items():
+            if (w[0], w[1]) == (pkg, ver):
+                body += f"\nworld {wid} {{\n" + "".join(f"  {it[2]}\n" for it in w[2] + w[3]) + "}\n"
+        out[pkg] = {"version": "%d.%d.%d" % ver if ver else None, "text": head + body}
+    return out
 
 
 # ------------------------------------------------------------------ text
@@ -227,16 +286,26 @@ def emit():
             if k[0] == "inst":
                 names |= set(k[1].keys())
     # identifiers used for access / inference are looked up as names too
-    names |= {"i", "k", "j", "f", "x", "nope", "p", "c", "m", "a", "g", "w", "h", "q", "y", "run", "t"}
+    names |= {"i", "k", "j", "f", "x", "nope", "p", "c", "m", "a", "g", "w", "h", "q", "y", "run", "t", "v", "z"}
+    for w in WORLDS.values():
+        names |= {n for n, _, _ in w[2] + w[3]}
     t = ["---- MODULE Lib_wacpool ----", "\\* GENERATED by lib/universe_wac.py -- do not edit", "EXTENDS TLC", ""]
     t.append("W_Pool == <<\n  " + ",\n  ".join(stmt_tla(s) for s in stmts) + ">>")
     t.append("W_Seg == (" + " @@ ".join(f"{tla_str(n)} :> {tla_str(seg(n))}" for n in sorted(names)) + ")")
     t.append("W_Colon == (" + " @@ ".join(f"{tla_str(n)} :> {'TRUE' if ':' in n else 'FALSE'}" for n in sorted(names)) + ")")
     t.append("W_Packages == {" + ", ".join(tla_str(k) for k in lib["pkgs"]) + "}")
+    t.append("W_TargetsFocus == {" + ", ".join(str(i) for i in targets_focus(stmts)) + "}")
+
+    def items(xs):
+        return "(" + " @@ ".join(f"{tla_str(n)} :> {tla_kind(lib['kinds'][k])}" for n, k, _ in xs) + ")" if xs else "<<>>"
+    t.append("W_Worlds == (" + " @@ ".join(
+        f"{tla_str(wid)} :> [imports |-> {items(w[2])}, exports |-> {items(w[3])}]" for wid, w in WORLDS.items()) + ")")
     t.append("====")
     with open(os.path.join(ROOT, "spec", "Lib_wacpool.tla"), "w") as f:
         f.write("\n".join(t) + "\n")
-    data = {"package": "test:comp", "statements": [stmt_text(s) for s in stmts], "wit_packages": WIT_PACKAGES}
+    worlds = {wid: {"path": f"{w[0]}/{wid}" + ("@%d.%d.%d" % w[1] if w[1] else ""), "package": w[0], "world": wid}
+              for wid, w in WORLDS.items()}
+    data = {"package": "test:comp", "statements": [stmt_text(s) for s in stmts], "wit_packages": wit_packages(), "worlds": worlds}
     with open(os.path.join(ROOT, "harness", "data", "wacpool.json"), "w") as f:
         json.dump(data, f, indent=1)
         f.write("\n")
